@@ -4,12 +4,21 @@ B1 every output cell comes from the one kernel or is a copy / zero (closed list 
 B2 prange body race-free: only store is out[<induction var>], other assigned names are function-local scalars, callee nogil and pure
 B3 fast path operands   B4 slow path pairing   B5 matrix: one slice selects reference chunk and output columns; chunk_slices tiles [0, n)
 B6 pairwise: cols slice, mirror store, flat offsets, num_pairs   B7 thread-count setters touch no data
+
+B1/B3..B6 are decided on VALUES, not spellings (class Vals): the operand / index / stored value of an anchor statement is
+resolved through the locals it went through, one case per path (if/else arms, conditional expressions, guard clauses), every
+case carrying its path condition; index expressions are compared as affine forms and per-axis view normal forms
+(out[:, s][i] == out[i, s]); closed-form condensed offsets are decided by exhaustive evaluation of the quasi-polynomial on a
+grid that determines it; a loop over a package generator that yields once per item of one parameter is read as a loop over
+that argument.  A value case that is wrong for the path it occurs on is a violation; a construct outside this vocabulary
+(unknown loop header, index composition that is not evident, guarded fill statement, rebound selector) is Undecided.
 """
 import ast
 
 from ..affine import Aff, sym
 from ..astutil import (u, atoms, guard_map, path_atoms, stmts_in, calls_in, callee, callee_attr, reaching_def, def_value,
-                       PARAM, AMBIGUOUS, get_arg, get_kw, is_none, is_const, raised_name, block_path, assigns_to)
+                       PARAM, AMBIGUOUS, get_arg, get_kw, is_none, is_const, raised_name, block_path, assigns_to, assigned_targets,
+                       always_exits)
 from ..report import Undecided
 
 MET = 'gambit.metric'
@@ -23,20 +32,455 @@ def _root(e):
     return e.id if isinstance(e, ast.Name) else None
 
 
+# ---------------------------------------------------------------------- path-sensitive values
+# The rules below do not look at the spelling of a statement but at the VALUE that reaches a use: a local name is replaced
+# by its definition(s), one case per path (if/else arms, conditional expressions), each case carrying the path condition
+# under which it holds.  Parameters, loop variables and names without a unique definition stay as (tagged) terminals.
+
+def binds(stmt, name):
+    """Does this statement itself (not its nested blocks) bind the plain name `name`?  (a name that only occurs inside a
+    subscript / attribute target, e.g. the n of `out[i:n] = ..`, is read there, not bound)"""
+    todo = list(assigned_targets(stmt))
+    while todo:
+        t = todo.pop()
+        if isinstance(t, ast.Starred):
+            t = t.value
+        if isinstance(t, (ast.Tuple, ast.List)):
+            todo.extend(t.elts)
+        elif isinstance(t, ast.Name) and t.id == name:
+            return True
+    if isinstance(stmt, (ast.Import, ast.ImportFrom)):
+        return any((a.asname or a.name.split('.')[0]) == name for a in stmt.names)
+    if isinstance(stmt, (ast.FunctionDef, ast.AsyncFunctionDef, ast.ClassDef)):
+        return stmt.name == name
+    return any(isinstance(n, ast.NamedExpr) and n.target.id == name for n in ast.walk(stmt)) if not isinstance(stmt, (ast.If, ast.For, ast.While, ast.With, ast.Try)) else False
+
+
+def binds_deep(stmt, name):
+    if binds(stmt, name):
+        return True
+    for f in ('body', 'orelse', 'finalbody', 'handlers'):
+        for x in getattr(stmt, f, None) or []:
+            if isinstance(x, ast.ExceptHandler):
+                if x.name == name or any(binds_deep(y, name) for y in x.body):
+                    return True
+            elif isinstance(x, ast.stmt) and binds_deep(x, name):
+                return True
+    if isinstance(stmt, (ast.If, ast.While)) and any(isinstance(n, ast.NamedExpr) and n.target.id == name for n in ast.walk(stmt.test)):
+        return True
+    return False
+
+
+def _tag(name, bind):
+    n = ast.Name(id=name, ctx=ast.Load())
+    n.bind = bind
+    return n
+
+
+def _clone(e, fn):
+    """Copy of expression e in which every node for which fn(node) is not None is replaced by that value (not descended)."""
+    if isinstance(e, list):
+        return [_clone(x, fn) for x in e]
+    if not isinstance(e, ast.AST):
+        return e
+    r = fn(e)
+    if r is not None:
+        return r
+    n = type(e)(**{f: _clone(v, fn) for f, v in ast.iter_fields(e)})
+    for k, v in e.__dict__.items():
+        if k not in e._fields:
+            setattr(n, k, v)
+    return n
+
+
+def _free_names(e):
+    bound = set()
+    for n in ast.walk(e):
+        if isinstance(n, ast.comprehension):
+            bound |= {x.id for x in ast.walk(n.target) if isinstance(x, ast.Name)}
+        elif isinstance(n, ast.Lambda):
+            a = n.args
+            bound |= {x.arg for x in a.posonlyargs + a.args + a.kwonlyargs}
+    return {n.id for n in ast.walk(e) if isinstance(n, ast.Name) and isinstance(n.ctx, ast.Load) and not hasattr(n, 'bind')} - bound
+
+
+_NEG = {'is': 'isnot', 'isnot': 'is', 'true': 'false', 'false': 'true', 'eq': 'ne', 'ne': 'eq', 'in': 'notin', 'notin': 'in'}
+
+
+def _contradicts(a, cond):
+    if a[0] in _NEG and (_NEG[a[0]],) + a[1:] in cond:
+        return True
+    if a[0] == 'lt' and (('le', a[2], a[1]) in cond or ('lt', a[2], a[1]) in cond):
+        return True
+    if a[0] == 'le' and ('lt', a[2], a[1]) in cond:
+        return True
+    return False
+
+
+def term(e, name=None, bind=Ellipsis):
+    """Is e a terminal (unsubstituted) name - optionally with this identifier / this binding?"""
+    return isinstance(e, ast.Name) and hasattr(e, 'bind') and (name is None or e.id == name) and (bind is Ellipsis or e.bind is bind)
+
+
+def has_ambiguous(e):
+    return any(isinstance(n, ast.Name) and getattr(n, 'bind', None) is AMBIGUOUS for n in ast.walk(e))
+
+
+class Vals:
+    """Values reaching a use, per path.  cases(expr, at) -> [(condition atoms, expression over terminals)]."""
+    LIMIT = 64
+
+    def __init__(self, fi):
+        self.fi = fi
+        self.fn = fi.node
+        a = fi.node.args
+        self.params = {x.arg for x in a.posonlyargs + a.args + a.kwonlyargs} | ({a.vararg.arg} if a.vararg else set()) | ({a.kwarg.arg} if a.kwarg else set())
+        self.gm = guard_map(self.fn)
+        self.stmts = list(stmts_in(self.fn.body))
+        self.order = {id(s): k for k, s in enumerate(self.stmts)}
+        self.test_owner = {id(s.test): s for s in self.stmts if isinstance(s, (ast.If, ast.While, ast.Assert))}
+        self._memo = {}
+        self._pm = None
+        self.overrides = {}     # (name, id(binding loop)) -> [(atoms, expression)]: per-item value of a loop variable, when known
+        # conditions are compared as text: an atom over a name that is (re)bound somewhere in the function may be stale at a
+        # later statement, so it never makes a path infeasible - unless the rebinding was shown not to change it (selector_stable)
+        self.assigned = {n.id for n in ast.walk(self.fn) if isinstance(n, ast.Name) and isinstance(n.ctx, ast.Store)}
+        self.stable = set()
+
+    def conj(self, c1, c2):
+        """Conjunction of two atom sets; None when they contradict each other on names whose value cannot have changed."""
+        vol = self.assigned - self.stable
+        for a in c2:
+            if _contradicts(a, c1) and not any(w in vol for x in a[1:] if isinstance(x, str) for w in _words(x)):
+                return None
+        return frozenset(c1) | frozenset(c2)
+
+    # -- locations
+    def stmt_of(self, node):
+        if self._pm is None:
+            self._pm = {}
+            for n in ast.walk(self.fn):
+                for c in ast.iter_child_nodes(n):
+                    self._pm[c] = n
+        while node is not None and not isinstance(node, ast.stmt):
+            node = self._pm.get(node)
+        return node
+
+    def before(self, a, b):
+        return self.order[id(a)] < self.order[id(b)]
+
+    def loops_around(self, stmt):
+        bp = block_path(self.fn, stmt) or []
+        return [o for (_, _, o) in bp if isinstance(o, (ast.For, ast.While))]
+
+    # -- conditions
+    def cond(self, test, pol, at):
+        """Atoms of `test` having truth value pol at statement `at`; names that are locals are resolved first."""
+        t = test
+        if at is not None and not _free_names(test) <= self.params:
+            cs = self.cases(test, at, path=False)
+            if len(cs) == 1 and not cs[0][0]:
+                t = cs[0][1]
+            else:
+                return frozenset({('true' if pol else 'false', f'{u(test)}@{getattr(test, "lineno", 0)}')})
+        a = atoms(t, pol)
+        if a is None:
+            return frozenset({('true' if pol else 'false', u(t))})
+        return frozenset(a)
+
+    def path(self, at):
+        """Path condition of a statement (structured guards incl. early exits), as atoms."""
+        key = ('path', id(at))
+        if key not in self._memo:
+            c = frozenset()
+            for t, p in self.gm.get(at, ()):
+                c = c | self.cond(t, p, self.test_owner.get(id(t)))
+            self._memo[key] = c
+        return self._memo[key]
+
+    # -- reaching definitions, per path
+    def _scan(self, block, upto, name):
+        found, open_ = [], [()]
+        for s in reversed(block[:upto]):
+            if binds(s, name):
+                d = s if not isinstance(s, (ast.For, ast.AsyncFor, ast.AugAssign)) else AMBIGUOUS
+                return found + [(g, d) for g in open_], []
+            if not binds_deep(s, name):
+                continue
+            if isinstance(s, ast.If):
+                nf, no = [], []
+                for branch, pol in ((s.body, True), (s.orelse, False)):
+                    if always_exits(branch):
+                        continue
+                    f, o = self._scan(branch, len(branch), name)
+                    nf += [(((s.test, pol, s),) + g, d) for g, d in f]
+                    no += [((s.test, pol, s),) + g for g in o]
+            elif isinstance(s, (ast.With, ast.AsyncWith)):
+                nf, no = self._scan(s.body, len(s.body), name)
+            else:
+                return found + [(g, AMBIGUOUS) for g in open_], []
+            found += [(g0 + g, d) for g0 in open_ for g, d in nf]
+            open_ = [g0 + g for g0 in open_ for g in no]
+            if not open_:
+                break
+        return found, open_
+
+    def rdefs(self, name, stmt):
+        """[(guards, definition)]: definition = statement node / PARAM / AMBIGUOUS / None (global or builtin)."""
+        path = block_path(self.fn, stmt)
+        if path is None:
+            return [((), AMBIGUOUS)]
+        found, open_ = [], [()]
+        for block, idx, owner in reversed(path):
+            f, o = self._scan(block, idx, name)
+            found += [(g0 + g, d) for g0 in open_ for g, d in f]
+            open_ = [g0 + g for g0 in open_ for g in o]
+            if not open_:
+                break
+            d = None
+            if isinstance(owner, (ast.For, ast.AsyncFor)) and binds(owner, name):
+                d = owner
+            elif isinstance(owner, (ast.For, ast.AsyncFor, ast.While)) and any(binds_deep(s, name) for s in block):
+                d = AMBIGUOUS
+            elif isinstance(owner, (ast.With, ast.AsyncWith)) and binds(owner, name):
+                d = owner
+            elif isinstance(owner, ast.Try) and binds_deep(owner, name):
+                d = AMBIGUOUS
+            if d is not None:
+                found += [(g, d) for g in open_]
+                open_ = []
+                break
+        if open_:
+            found += [(g, PARAM if name in self.params else None) for g in open_]
+        return found
+
+    def options(self, name, at):
+        key = ('opt', name, id(at))
+        if key in self._memo:
+            return self._memo[key]
+        if name in self.params:
+            out = [(frozenset(), _tag(name, PARAM))]
+        else:
+            out = []
+            for guards, d in self.rdefs(name, at):
+                c = frozenset()
+                for t, p, owner in guards:
+                    c = self.conj(c, self.cond(t, p, owner)) if c is not None else None
+                if c is None:
+                    continue
+                v = def_value(d) if isinstance(d, ast.AST) else None
+                if isinstance(d, ast.AST) and (name, id(d)) in self.overrides:
+                    for c2, e2 in self.overrides[(name, id(d))]:
+                        cc = self.conj(c, c2)
+                        if cc is not None:
+                            out.append((cc, e2))
+                elif v is not None:
+                    for c2, e2 in self.cases(v, d, path=False):
+                        cc = self.conj(c, c2)
+                        if cc is not None:
+                            out.append((cc, e2))
+                else:
+                    out.append((c, _tag(name, d)))
+        self._memo[key] = out
+        return out
+
+    def _split(self, expr, at):
+        node = next((n for n in ast.walk(expr) if isinstance(n, ast.IfExp)), None)
+        if node is None:
+            return [(frozenset(), expr)]
+        out = []
+        for pol, branch in ((True, node.body), (False, node.orelse)):
+            c0 = self.cond(node.test, pol, at)
+            e2 = _clone(expr, lambda n: branch if n is node else None)
+            for c, e in self._split(e2, at):
+                cc = self.conj(c0, c)
+                if cc is not None:
+                    out.append((cc, e))
+        return out
+
+    def cases(self, expr, at, path=True):
+        """Every value `expr` can have at statement `at`, one per feasible path: [(atoms, resolved expression)]."""
+        base = self.path(at) if path else frozenset()
+        out = []
+        for c1, e1 in self._split(expr, at):
+            c = self.conj(base, c1)
+            if c is None:
+                continue
+            res = [(c, {})]
+            for nm in sorted(_free_names(e1)):
+                new = []
+                for c0, mp in res:
+                    for c2, r in self.options(nm, at):
+                        cc = self.conj(c0, c2)
+                        if cc is not None:
+                            new.append((cc, dict(mp, **{nm: r})))
+                res = new
+                if len(res) > self.LIMIT:
+                    raise Undecided(f'{self.fi.name}: more than {self.LIMIT} value cases for `{u(expr)[:60]}`')
+            for c0, mp in res:
+                out.append((c0, _clone(e1, lambda n, mp=mp: mp.get(n.id) if isinstance(n, ast.Name) and isinstance(n.ctx, ast.Load) and not hasattr(n, 'bind') else None)))
+        return out
+
+    def show(self, cs):
+        return [f'{u(e)}' + (f' if {sorted(c)}' if c else '') for c, e in cs]
+
+
+def mode(cond, atom_true, atom_false, what):
+    """True / False when the condition fixes the selector, None when the case holds for both; any other atom that mentions
+    the selector is outside what the rule can compare -> Undecided."""
+    if atom_true in cond:
+        return True
+    if atom_false in cond:
+        return False
+    name = atom_true[-1]
+    for a in cond:
+        if any(isinstance(x, str) and name in [w for w in _words(x)] for x in a[1:]):
+            raise Undecided(f'{what}: condition {a} on `{name}` is not one of {atom_true} / {atom_false}')
+    return None
+
+
+def _words(text):
+    w = ''
+    for ch in text:
+        if ch.isalnum() or ch == '_':
+            w += ch
+        else:
+            if w:
+                yield w
+            w = ''
+    if w:
+        yield w
+
+
+def selector_stable(V, name, allow_asarray):
+    """Conditions on a selector parameter are compared textually across statements: it must not be rebound in a way that
+    changes them (np.asarray(x) under `x is not None` keeps x non-None)."""
+    for s in assigns_to(V.fn, name):
+        ok = allow_asarray and isinstance(s, ast.Assign) and len(s.targets) == 1 and isinstance(s.targets[0], ast.Name) and isinstance(s.value, ast.Call) \
+            and u(s.value.func) in ('np.asarray', 'numpy.asarray', 'np.asanyarray', 'np.array') and s.value.args and u(s.value.args[0]) == name and ('isnot', 'None', name) in V.path(s)
+        if not ok:
+            raise Undecided(f'{V.fi.name}: `{name}` is rebound by `{u(s)[:60]}`; conditions on it cannot be compared across statements')
+    V.stable.add(name)
+    V._memo.clear()
+
+
+# ---------------------------------------------------------------------- index normal form
+
+FULL = ('full',)
+
+
+def _slice_nf(lo, hi, step, aff):
+    if step is not None and not is_const(step, 1) and not is_none(step):
+        raise Undecided(f'slice with step {u(step)}')
+    def bound(b):
+        if b is None or is_none(b):
+            return None
+        v = aff(b)
+        return v if v is not None else ('expr', u(b))
+    lo, hi = bound(lo), bound(hi)
+    if lo is None and hi is None:
+        return FULL
+    return ('slice', lo, hi)
+
+
+def index_elem(e, aff, slice_vars=()):
+    """Normal form of one index element: FULL | ('slice', lo, hi) | ('slicevar', name) | ('int', Aff)."""
+    if isinstance(e, ast.Slice):
+        return _slice_nf(e.lower, e.upper, e.step, aff)
+    if isinstance(e, ast.Call) and isinstance(e.func, ast.Name) and e.func.id == 'slice' and not e.keywords and 1 <= len(e.args) <= 3:
+        a = list(e.args)
+        if len(a) == 1:
+            a = [None, a[0]]
+        return _slice_nf(a[0], a[1], a[2] if len(a) == 3 else None, aff)
+    for sv in slice_vars:
+        if term(e, sv.id, sv.bind):
+            return ('slicevar', sv.id)
+    v = aff(e)
+    if v is None:
+        raise Undecided(f'index element `{u(e)}` is neither a slice nor an affine integer expression')
+    return ('int', v)
+
+
+def view_axes(e, base, aff, slice_vars=()):
+    """e = base[...][...]... -> {axis of base: normal form} (composition of basic indexing steps); None if e is not a view of
+    `base`.  Only steps whose composition is evident are accepted (an axis is indexed once; `:` leaves it alone)."""
+    steps = []
+    while isinstance(e, ast.Subscript):
+        steps.append(e.slice)
+        e = e.value
+    if not term(e, base, PARAM):
+        return None
+    axes, visible, nxt = {}, [], 0
+    for sl in reversed(steps):
+        elts = list(sl.elts) if isinstance(sl, ast.Tuple) else [sl]
+        keep = []
+        for k, x in enumerate(elts):
+            while len(visible) <= k:
+                visible.append(nxt)
+                nxt += 1
+            ax = visible[k]
+            nf = index_elem(x, aff, slice_vars)
+            if nf == FULL:
+                keep.append(ax)
+                continue
+            if axes.get(ax, FULL) != FULL:
+                raise Undecided(f'axis {ax} of `{base}` is indexed twice ({u(x)} after a slice); composition not evaluated')
+            axes[ax] = nf
+            if nf[0] != 'int':
+                keep.append(ax)
+        visible = keep + visible[len(elts):]
+    return axes
+
+
 def out_aliases(fi):
-    """Names that are views of the output buffer: `out` itself and locals defined as subscripts of it."""
-    names = {'out'}
+    """Names that may be / must be views of the output buffer: `out` itself, locals defined as subscripts of a view, and loop
+    variables iterating over a view.  (may: some definition is a view - stores through it are checked; must: all are.)"""
+    may = {'out'}
     changed = True
     while changed:
         changed = False
         for s in stmts_in(fi.node.body):
-            if isinstance(s, ast.Assign) and len(s.targets) == 1 and isinstance(s.targets[0], ast.Name) and s.targets[0].id not in names:
+            if isinstance(s, ast.Assign) and len(s.targets) == 1 and isinstance(s.targets[0], ast.Name) and s.targets[0].id not in may:
                 v = s.value
                 cands = [v.body, v.orelse] if isinstance(v, ast.IfExp) else [v]
-                if all(isinstance(c, ast.Subscript) and _root(c) in names for c in cands):
-                    names.add(s.targets[0].id)
+                if any(isinstance(c, ast.Subscript) and _root(c) in may for c in cands):
+                    may.add(s.targets[0].id)
                     changed = True
-    return names
+            if isinstance(s, (ast.For, ast.AsyncFor)) and isinstance(s.iter, (ast.Subscript, ast.Name)) and _root(s.iter) in may:
+                for t in ast.walk(s.target):
+                    if isinstance(t, ast.Name) and t.id not in may:
+                        may.add(t.id)
+                        changed = True
+    must = set(may)
+    changed = True
+    while changed:
+        changed = False
+        for n in sorted(must - {'out'}):
+            for s in assigns_to(fi.node, n):
+                v = s.value if isinstance(s, ast.Assign) and len(s.targets) == 1 and isinstance(s.targets[0], ast.Name) else None
+                cands = [v.body, v.orelse] if isinstance(v, ast.IfExp) else [v]
+                if not all(isinstance(c, ast.Subscript) and _root(c) in must for c in cands):
+                    must.discard(n)
+                    changed = True
+                    break
+    return may, must
+
+
+def _is_cell_copy(e, must):
+    """e reads cells of the output buffer: a subscript of `out` / of a local that is always a view of it, or such a view itself."""
+    if isinstance(e, ast.Name) and not hasattr(e, 'bind'):
+        return e.id in must and e.id != 'out'
+    if not isinstance(e, ast.Subscript):
+        return False
+    while isinstance(e, (ast.Subscript, ast.Attribute)):
+        e = e.value
+    if term(e):
+        return e.id == 'out' and e.bind is PARAM
+    return isinstance(e, ast.Name) and e.id in must
+
+
+def _is_kernel(m, fi, e):
+    return isinstance(e, ast.Call) and m.resolve_call(fi, e) in KERNELS
 
 
 def check_stores(ctx):
@@ -45,7 +489,8 @@ def check_stores(ctx):
     for fname in ('jaccarddist_array', 'jaccarddist_matrix', 'jaccarddist_pairwise'):
         fi = m.func(f'{MET}.{fname}')
         rep.functions.add(fi.qualname)
-        al = out_aliases(fi)
+        V = Vals(fi)
+        al, must = out_aliases(fi)
         for s in stmts_in(fi.node.body):
             if isinstance(s, ast.AugAssign) and _root(s.target) in al:
                 rep.add('B1', fi.site(s), 'no arithmetic is performed on an output cell', False, expected='kernel value / copy / zero', found=u(s), stmt=s)
@@ -53,15 +498,17 @@ def check_stores(ctx):
                 for t in s.targets:
                     if isinstance(t, ast.Subscript) and _root(t) in al:
                         v = s.value
-                        if isinstance(v, ast.Call) and m.resolve_call(fi, v) in KERNELS:
+                        # the stored value, through locals it may have been bound to first (one case per path)
+                        cs = [(frozenset(), v)] if _is_kernel(m, fi, v) or (isinstance(v, (ast.Subscript, ast.Name)) and _root(v) in must) else V.cases(v, s)
+                        if cs and all(_is_kernel(m, fi, e) for _, e in cs):
                             kinds.setdefault('kernel', []).append(s)
                             rep.add('B1', fi.site(s), 'the cell is the unmodified value of the two-signature kernel', True, found=u(v), stmt=s)
-                        elif isinstance(v, ast.Subscript) and _root(v) in al:
+                        elif cs and all(_is_cell_copy(e, must) for _, e in cs):
                             kinds.setdefault('mirror', []).append(s)
                             rep.add('B1', fi.site(s), 'the cell is a copy of another cell of the same buffer', True, found=u(v), stmt=s)
                         else:
                             rep.add('B1', fi.site(s), 'every stored cell is a kernel value, a copy of a cell, or zero (no rounding / arithmetic / other source)', False,
-                                    expected='_cmetric.jaccarddist(...) | out[...]', found=u(v), stmt=s)
+                                    expected='_cmetric.jaccarddist(...) | out[...]', found=u(v) if len(cs) <= 1 else V.show(cs), stmt=s)
         for c in calls_in(fi.node):
             f = m.resolve_call(fi, c) or u(c.func)
             o = get_arg(c, 2, 'out') if f == f'{MET}.jaccarddist_array' else get_kw(c, 'out')
@@ -169,101 +616,334 @@ def check_prange(ctx):
             stmt='kernel purity')
 
 
+def _single(V, e, at, what):
+    cs = V.cases(e, at)
+    if not cs:
+        raise Undecided(f'{V.fi.name}: {what}: no feasible path reaches `{u(e)[:50]}`')
+    return cs
+
+
+def _iteration(V, loop, seq, what):
+    """How a loop walks over the sequence parameter `seq`: ('enumerate', index name, element name) for
+    `for i, x in enumerate(seq)`, ('range', index name, None) for `for i in range(len(seq))`; anything else is outside the
+    vocabulary (Undecided).  The pairing index <-> element is then by construction of the loop header."""
+    cs = _single(V, loop.iter, loop, what)
+    forms = set()
+    for _, it in cs:
+        if isinstance(it, ast.Call) and isinstance(it.func, ast.Name) and not it.keywords:
+            if it.func.id == 'enumerate' and len(it.args) in (1, 2) and (len(it.args) == 1 or is_const(it.args[1], 0)) and isinstance(loop.target, ast.Tuple) and len(loop.target.elts) == 2 \
+                    and all(isinstance(e, ast.Name) for e in loop.target.elts):
+                forms.add(('enumerate', loop.target.elts[0].id, loop.target.elts[1].id, u(it.args[0]) if term(it.args[0], None, PARAM) else f'<{u(it.args[0])}>'))
+                continue
+            if it.func.id == 'range' and len(it.args) == 1 and isinstance(loop.target, ast.Name) and isinstance(it.args[0], ast.Call) and isinstance(it.args[0].func, ast.Name) and it.args[0].func.id == 'len' \
+                    and len(it.args[0].args) == 1:
+                a = it.args[0].args[0]
+                forms.add(('range', loop.target.id, None, u(a) if term(a, None, PARAM) else f'<{u(a)}>'))
+                continue
+        raise Undecided(f'{V.fi.name}: {what}: loop header `for {u(loop.target)} in {u(loop.iter)[:60]}` is neither enumerate(<sequence>) nor range(len(<sequence>))')
+    if len(forms) != 1:
+        raise Undecided(f'{V.fi.name}: {what}: loop header has several forms {sorted(forms)}')
+    kind, i, x, over = next(iter(forms))
+    return kind, i, x, over
+
+
+def _is_element(e, kind, i, x, seq, loop):
+    """e is the element of `seq` that belongs to index i of this loop."""
+    if kind == 'enumerate':
+        return term(e, x, loop)
+    return isinstance(e, ast.Subscript) and term(e.value, seq, PARAM) and term(e.slice, i, loop)
+
+
 def check_array(ctx):
     rep, m = ctx.rep, ctx.model
     fi = m.func(f'{MET}.jaccarddist_array')
-    gm = guard_map(fi.node)
+    V = Vals(fi)
     qp, rp = fi.params()[:2]
     par = [c for c in calls_in(fi.node) if m.resolve_call(fi, c) == f'{PYX}._jaccarddist_parallel']
     rep.require(len(par) == 1, 'jaccarddist_array: expected one parallel-kernel call')
     c = par[0]
-    st = next(s for s in stmts_in(fi.node.body) if isinstance(s, ast.Expr) and s.value is c)
-    at = path_atoms(gm[st])
+    st = V.stmt_of(c)
+    at = V.path(st)
     rep.add('B3', fi.site(c), 'the fast path is taken only for a concatenated in-memory array', ('true', f'isinstance({rp}, SignatureArray)') in at, expected=f'isinstance({rp}, SignatureArray)', found=sorted(at), stmt='fast path guard')
     pf = m.func(f'{PYX}._jaccarddist_parallel')
-    rep.require(len(c.args) == 4, 'jaccarddist_array: parallel kernel arity')
-    defs = {}
-    for a in c.args[1:3]:
-        d = reaching_def(fi.node, a.id, st) if isinstance(a, ast.Name) else None
-        defs[u(a)] = def_value(d) if d not in (None, PARAM, AMBIGUOUS) else None
-    v, b = (defs.get(u(a)) for a in c.args[1:3])
-    okv = isinstance(v, ast.Call) and m.resolve_call(fi, v) == f'{MET}._cast_sigs_array' and u(v.args[0]) == f'{rp}.values'
-    okb = isinstance(b, ast.Call) and u(b.func) == f'{rp}.bounds.astype' and u(b.args[0]) == 'BOUNDS_DTYPE'
-    rep.add('B3', fi.site(c), 'kernel operands (query, values, bounds, out) come from the same collection, in the parameter order of the kernel', u(c.args[0]) == qp and okv and okb and u(c.args[3]) == 'out'
-            and pf.params()[:4] == ['query', 'ref_coords', 'ref_bounds', 'out'], expected=f'({qp}, cast({rp}.values), {rp}.bounds.astype(BOUNDS_DTYPE), out)', found=(u(c), u(v), u(b), pf.params()), stmt='fast path operands')
+    ops = [get_arg(c, k, n) for k, n in enumerate(pf.params()[:4])]
+    rep.require(len(pf.params()) >= 4 and all(isinstance(o, ast.AST) for o in ops) and len(c.args) + len(c.keywords) == 4, 'jaccarddist_array: parallel kernel arity')
+    # operands by VALUE: whatever locals they went through
+    oq, ov, ob, oo = (_single(V, o, st, 'fast path operand') for o in ops)
+    okq = all(term(e, qp, PARAM) for _, e in oq)
+    okv = all(isinstance(e, ast.Call) and m.resolve_call(fi, e) == f'{MET}._cast_sigs_array' and len(e.args) == 1 and not e.keywords and u(e.args[0]) == f'{rp}.values' and term(e.args[0].value, rp, PARAM) for _, e in ov)
+    okb = all(isinstance(e, ast.Call) and u(e.func) == f'{rp}.bounds.astype' and term(e.func.value.value, rp, PARAM) and e.args and u(e.args[0]) == 'BOUNDS_DTYPE' for _, e in ob)
+    oko = all(term(e, 'out', PARAM) for _, e in oo)
+    rep.add('B3', fi.site(c), 'kernel operands (query, values, bounds, out) come from the same collection, in the parameter order of the kernel', okq and okv and okb and oko
+            and pf.params()[:4] == ['query', 'ref_coords', 'ref_bounds', 'out'], expected=f'({qp}, cast({rp}.values), {rp}.bounds.astype(BOUNDS_DTYPE), out)', found=(u(c), V.show(ov), V.show(ob), pf.params()), stmt='fast path operands')
     types = m.module('gambit._cython.types:pxd').side.get('typedefs', {})
     bd = m.module('gambit.sigs.base').assigns.get('BOUNDS_DTYPE')
     rep.add('B3', (m.module('gambit.sigs.base').relpath, getattr(bd, 'lineno', 1), 'gambit.sigs.base.BOUNDS_DTYPE'), 'bounds dtype on both sides of the boundary is the pointer-width integer', types.get('BOUNDS_T') == 'intptr_t'
             and u(bd) == 'np.dtype(np.intp)' and pf.ctype('ref_bounds') == 'BOUNDS_T[:]' and pf.ctype('out') == 'SCORE_T[:]', expected='intptr_t / np.intp; SCORE_T[:] out', found=(types.get('BOUNDS_T'), u(bd), pf.ctype('ref_bounds'), pf.ctype('out')),
             stmt='bounds dtype')
-    # slow path
-    ks = [s for s in stmts_in(fi.node.body) if isinstance(s, ast.Assign) and isinstance(s.value, ast.Call) and m.resolve_call(fi, s.value) in KERNELS]
-    rep.require(len(ks) == 1, 'jaccarddist_array: expected one per-item kernel store')
-    s = ks[0]
-    bp = block_path(fi.node, s)
-    loop = next((o for (_, _, o) in reversed(bp) if isinstance(o, ast.For)), None)
-    ok = loop is not None and isinstance(loop.iter, ast.Call) and u(loop.iter.func) == 'enumerate' and [u(a) for a in loop.iter.args] == [rp] and isinstance(loop.target, ast.Tuple)
-    if ok:
-        i, r = (u(e) for e in loop.target.elts)
-        tgt = s.targets[0]
-        ok = u(tgt) == f'out[{i}]' and u(s.value.args[0]) == qp and u(s.value.args[1]) == r
-        casts = [x for x in loop.body if isinstance(x, ast.Assign) and u(x.targets[0]) == r]
-        ok = ok and len(casts) == 1 and isinstance(casts[0].value, ast.Call) and [u(a) for a in casts[0].value.args] == [r] and casts[0].lineno < s.lineno
-    rep.add('B4', fi.site(s), 'slow path: cell i is the kernel value of (query, i-th reference), i and reference bound by one enumerate', ok, expected=f'for i, ref in enumerate({rp}): out[i] = jaccarddist({qp}, cast(ref))', found=u(loop)[:120] if loop else None,
-            stmt='slow path pairing')
-    at = path_atoms(gm[s])
+    # slow path: the store into the buffer whose value is the per-item kernel (possibly through a local)
+    al, _ = out_aliases(fi)
+    ks = []
+    for s in V.stmts:
+        if isinstance(s, ast.Assign) and any(isinstance(t, ast.Subscript) and _root(t) in al for t in s.targets):
+            cs = V.cases(s.value, s)
+            if cs and any(_is_kernel(m, fi, e) for _, e in cs):
+                ks.append((s, cs))
+    rep.require(len(ks) == 1 and len(ks[0][0].targets) == 1, 'jaccarddist_array: expected one per-item kernel store')
+    s, vcs = ks[0]
+    loops = V.loops_around(s)
+    rep.require(bool(loops) and isinstance(loops[-1], ast.For), 'jaccarddist_array: per-item kernel store is not inside a for loop')
+    loop = loops[-1]
+    kind, i, x, over = _iteration(V, loop, rp, 'slow path')
+    tgt = s.targets[0]
+    tb = _single(V, tgt.value, s, 'slow path store')
+    ti = _single(V, tgt.slice, s, 'slow path store')
+    ok_t = over == rp and all(term(e, 'out', PARAM) for _, e in tb) and all(term(e, i, loop) for _, e in ti)
+    ok_v = True
+    for _, e in vcs:
+        a = [get_arg(e, 0, None), get_arg(e, 1, None)] if _is_kernel(m, fi, e) and len(e.args) == 2 and not e.keywords else [None, None]
+        r = a[1]
+        # the reference operand is the cast of THIS iteration's element (cast separately or inside the call: same value)
+        ok_r = isinstance(r, ast.Call) and m.resolve_call(fi, r) == f'{MET}._cast_sigs_array' and len(r.args) == 1 and not r.keywords and _is_element(r.args[0], kind, i, x, rp, loop)
+        ok_v = ok_v and a[0] is not None and term(a[0], qp, PARAM) and ok_r
+    rep.add('B4', fi.site(s), 'slow path: cell i is the kernel value of (query, i-th reference), i and reference bound by one enumerate', ok_t and ok_v, expected=f'for i, ref in enumerate({rp}): out[i] = jaccarddist({qp}, cast(ref))',
+            found=(f'for {u(loop.target)} in {u(loop.iter)}', f'{u(tgt)} = ' + ' | '.join(V.show(vcs))), stmt='slow path pairing')
+    at = V.path(s)
     rep.add('B4', fi.site(s), 'the slow path handles every other container', ('false', f'isinstance({rp}, SignatureArray)') in at, expected='else branch', found=sorted(at), stmt='slow path guard')
     qc = [x for x in fi.node.body if isinstance(x, ast.Assign) and u(x.targets[0]) == qp]
     rep.add('B3', fi.site(qc[0] if qc else None), 'the query array itself (cast, not copied or reordered) is what both paths see', len(qc) == 1 and u(qc[0].value) == f'_cast_sigs_array({qp})', expected=f'{qp} = _cast_sigs_array({qp})',
             found=[u(x) for x in qc], stmt='query operand')
+    every_iteration(V, s, loop, 'the per-item kernel store')
+    extra = [x for x in assigns_to(fi.node, qp) if x not in qc] + assigns_to(fi.node, rp)
+    rep.require(not extra, f'jaccarddist_array: operand parameter rebound by `{u(extra[0])[:60] if extra else ""}`; its uses cannot be compared across statements')
+
+
+def generator_items(m, fi, V, loop):
+    """`for t0, t1, .. in G(args)` where G is a generator of the package every path of which is ONE loop `for v in <parameter p>`
+    that yields exactly once per item: the loop is then a loop over the argument bound to p, and each target is a function of the
+    item (one case per path of G, parameters replaced by the arguments).  Returns (name of the target that IS the item,
+    the argument iterated over) and registers the per-item values of the other targets; None if the iterator is not such a call."""
+    it = loop.iter
+    q = m.resolve_call(fi, it) if isinstance(it, ast.Call) else None
+    g = m.functions.get(q) if q else None
+    if g is None or not any(isinstance(n, (ast.Yield, ast.YieldFrom)) for n in ast.walk(g.node)):
+        return None
+    what = f'{fi.name}: loop over generator {g.name}()'
+    a = g.node.args
+    if a.vararg or a.kwarg or any(isinstance(x, ast.Starred) for x in it.args) or any(k.arg is None for k in it.keywords):
+        raise Undecided(f'{what}: star arguments')
+    if not (isinstance(loop.target, ast.Tuple) and all(isinstance(e, ast.Name) for e in loop.target.elts)):
+        raise Undecided(f'{what}: loop target `{u(loop.target)}` is not a tuple of names')
+    args = {}
+    for k, p in enumerate(g.params()):
+        e = get_arg(it, k, p)
+        if not isinstance(e, ast.AST):
+            raise Undecided(f'{what}: argument for parameter {p} not given explicitly')
+        args[p] = e
+    VG = Vals(g)
+    paths = []
+
+    def walk(block, guards):
+        body = [x for x in block if not (isinstance(x, ast.Expr) and isinstance(x.value, ast.Constant))]
+        if not body or any(not isinstance(x, (ast.Assign, ast.AnnAssign)) or any(isinstance(n, (ast.Yield, ast.YieldFrom)) for n in ast.walk(x)) for x in body[:-1]):
+            raise Undecided(f'{what}: body is not (assignments, then one loop or an if/else of such blocks)')
+        last = body[-1]
+        if isinstance(last, ast.For) and not last.orelse:
+            paths.append((guards, last))
+        elif isinstance(last, ast.If) and last.orelse:
+            walk(last.body, guards + [(last.test, True, last)])
+            walk(last.orelse, guards + [(last.test, False, last)])
+        else:
+            raise Undecided(f'{what}: body is not (assignments, then one loop or an if/else of such blocks)')
+    walk(g.node.body, [])
+    n = len(loop.target.elts)
+    item_name = None
+    per_target = [[] for _ in range(n)]
+    iter_params = set()
+    resolved_args = {}
+
+    def arg_of(p):
+        if p not in resolved_args:
+            cs = V.cases(args[p], loop)
+            if len(cs) != 1:
+                raise Undecided(f'{what}: argument `{u(args[p])}` has {len(cs)} possible values')
+            resolved_args[p] = cs[0][1]
+        return resolved_args[p]
+    for guards, lp in paths:
+        ics = VG.cases(lp.iter, lp, path=False)
+        ys = [x for x in ast.walk(lp) if isinstance(x, (ast.Yield, ast.YieldFrom))]
+        body = lp.body
+        ok = isinstance(lp.target, ast.Name) and len(ics) == 1 and not ics[0][0] and term(ics[0][1], None, PARAM) and len(ys) == 1 and isinstance(body[-1], ast.Expr) and body[-1].value is ys[0] \
+            and isinstance(ys[0], ast.Yield) and all(isinstance(x, (ast.Assign, ast.AnnAssign)) for x in body[:-1])
+        if not ok:
+            raise Undecided(f'{what}: `for {u(lp.target)} in {u(lp.iter)[:40]}` is not a loop over a parameter yielding exactly once per item')
+        iter_params.add(ics[0][1].id)
+        item = _tag('<item>', loop)
+
+        def subst(e, lp=lp, item=item):
+            return _clone(e, lambda x: item if term(x, lp.target.id, lp) else (arg_of(x.id) if term(x, None, PARAM) and x.id in args else None))
+        cond = frozenset()
+        for t, pol, owner in guards:
+            tcs = VG.cases(t, owner, path=False)
+            if len(tcs) != 1 or tcs[0][0]:
+                raise Undecided(f'{what}: condition `{u(t)}` depends on the path')
+            a_ = atoms(subst(tcs[0][1]), pol)
+            cond = V.conj(cond, frozenset(a_ if a_ is not None else {('true' if pol else 'false', u(subst(tcs[0][1])))})) if cond is not None else None
+        if cond is None:
+            continue
+        for c2, y in VG.cases(ys[0].value, body[-1], path=False) if ys[0].value is not None else []:
+            if not (isinstance(y, ast.Tuple) and len(y.elts) == n):
+                raise Undecided(f'{what}: yields `{u(y)}`, loop unpacks {n} names')
+            cc = V.conj(cond, frozenset(atom for atom in c2))
+            if cc is None:
+                continue
+            for k in range(n):
+                per_target[k].append((cc, subst(y.elts[k])))
+    if len(iter_params) != 1 or iter_params & {p for p in args if p in resolved_args}:
+        raise Undecided(f'{what}: the paths iterate over different parameters {sorted(iter_params)}')
+    for k, t in enumerate(loop.target.elts):
+        if per_target[k] and all(term(e, '<item>', loop) for _, e in per_target[k]) and item_name is None:
+            item_name = t.id
+    if item_name is None:
+        raise Undecided(f'{what}: no loop target is the iterated item itself')
+    S = _tag(item_name, loop)
+    for k, t in enumerate(loop.target.elts):
+        if t.id != item_name:
+            V.overrides[(t.id, id(loop))] = [(c, _clone(e, lambda x: S if term(x, '<item>', loop) else None)) for c, e in per_target[k]]
+    return item_name, args[next(iter(iter_params))]
+
+
+def every_iteration(V, stmt, loop, what):
+    """The statement that fills the cells must run on every iteration of its loop(s): a guard between the loop header and the
+    statement (if / continue / break) leaves cells unwritten unless it is always true, which the rules do not evaluate."""
+    extra = V.path(stmt) - V.path(loop)
+    jumps = [x for x in stmts_in(loop.body) if isinstance(x, (ast.Break, ast.Continue)) or (isinstance(x, ast.Return) and V.before(x, stmt))]
+    if extra or jumps:
+        raise Undecided(f'{V.fi.name}: {what} is executed only under {sorted(extra) if extra else u(jumps[0])} inside its loop; whether every cell is still written is not evaluated')
+
+
+def sequence_stable(V, name):
+    """The rules compare uses of a sequence parameter by name: it may only be rebound by the order-preserving list wrap."""
+    for s in assigns_to(V.fn, name):
+        ok = isinstance(s, ast.Assign) and len(s.targets) == 1 and isinstance(s.targets[0], ast.Name) and u(s.value) == f'SignatureList({name})' and not V.loops_around(s)
+        if not ok:
+            raise Undecided(f'{V.fi.name}: sequence parameter `{name}` is rebound by `{u(s)[:60]}`; its uses cannot be compared across statements')
+
+
+def _sel_atoms(name):
+    return ('is', 'None', name), ('isnot', 'None', name)
+
+
+def _selected(e, cond, seq, sel, idx_ok, what):
+    """e selects from `seq` the items at positions idx - directly when the selection `sel` is None, through sel[idx] otherwise;
+    the case's condition decides which of the two is required."""
+    if not (isinstance(e, ast.Subscript) and term(e.value, seq, PARAM)):
+        return False
+    direct = idx_ok(e.slice)
+    via = isinstance(e.slice, ast.Subscript) and term(e.slice.value, sel, PARAM) and idx_ok(e.slice.slice)
+    if not direct and not via:
+        return False
+    md = mode(cond, *_sel_atoms(sel), what)
+    if md is True:
+        return direct
+    if md is False:
+        return via
+    return False   # used on both paths: cannot be right for both
+
+
+def _count(e, cond, seq, sel, what):
+    """e is the number of selected items: len(seq) when sel is None, len(sel) otherwise."""
+    if not (isinstance(e, ast.Call) and isinstance(e.func, ast.Name) and e.func.id == 'len' and len(e.args) == 1 and not e.keywords and (term(e.args[0], seq, PARAM) or term(e.args[0], sel, PARAM))):
+        return False
+    md = mode(cond, *_sel_atoms(sel), what)
+    return md is not None and term(e.args[0], seq if md else sel, PARAM)
 
 
 def check_matrix(ctx):
     rep, m = ctx.rep, ctx.model
     fi = m.func(f'{MET}.jaccarddist_matrix')
+    V = Vals(fi)
     gm = guard_map(fi.node)
     qp, rp, rip = fi.params()[:3]
+    csp = fi.params()[4]
     calls = [c for c in calls_in(fi.node) if m.resolve_call(fi, c) == f'{MET}.jaccarddist_array']
     rep.require(len(calls) == 1, 'jaccarddist_matrix: expected one jaccarddist_array call')
     c = calls[0]
-    st = next(s for s in stmts_in(fi.node.body) if isinstance(s, ast.Expr) and s.value is c)
-    bp = block_path(fi.node, st)
-    loops = [o for (_, _, o) in bp if isinstance(o, ast.For)]
-    rep.require(len(loops) == 2, 'jaccarddist_matrix: expected a chunk loop around a query loop')
+    st = V.stmt_of(c)
+    loops = [o for o in V.loops_around(st)]
+    rep.require(len(loops) == 2 and all(isinstance(o, ast.For) for o in loops), 'jaccarddist_matrix: expected a chunk loop around a query loop')
+    selector_stable(V, rip, True)
     chunk_loop, q_loop = loops
-    sl = u(chunk_loop.target)
-    okq = isinstance(q_loop.iter, ast.Call) and u(q_loop.iter.func) == 'enumerate' and [u(a) for a in q_loop.iter.args] == [qp] and isinstance(q_loop.target, ast.Tuple)
+    # query loop
+    try:
+        kind, i, qv, over = _iteration(V, q_loop, qp, 'query loop')
+        okq = over == qp
+    except Undecided:
+        kind = i = qv = None
+        okq = False
     rep.add('B5', fi.site(q_loop), 'row index and query are bound by one enumerate over the queries', okq, expected=f'for i, query in enumerate({qp})', found=u(q_loop.iter), stmt='query enumerate')
     rep.require(okq, 'jaccarddist_matrix: query loop shape')
-    i, qv = (u(e) for e in q_loop.target.elts)
-    o = get_arg(c, 2, 'out')
-    rep.add('B5', fi.site(c), 'row i, columns of this chunk receive the distances of query i to the chunk', u(c.args[0]) == qv and u(o) == f'out[{i}, {sl}]', expected=f'jaccarddist_array({qv}, chunk, out=out[{i}, {sl}])', found=u(c), stmt='matrix cell block')
-    chunk = c.args[1]
-    d = reaching_def(fi.node, chunk.id, q_loop) if isinstance(chunk, ast.Name) else None
-    cv = def_value(d) if d not in (None, PARAM, AMBIGUOUS) else None
-    okc = isinstance(cv, ast.Subscript) and u(cv.value) == rp
-    idx = cv.slice if okc else None
-    iv = idx
-    if isinstance(idx, ast.Name):
-        d2 = reaching_def(fi.node, idx.id, d)
-        iv = def_value(d2) if d2 not in (None, PARAM, AMBIGUOUS) else None
-    oki = isinstance(iv, ast.IfExp) and atoms(iv.test) == {('is', 'None', rip)} and u(iv.body) == sl and u(iv.orelse) == f'{rip}[{sl}]'
-    oki = oki or (isinstance(iv, ast.IfExp) and atoms(iv.test) == {('isnot', 'None', rip)} and u(iv.orelse) == sl and u(iv.body) == f'{rip}[{sl}]')
-    rep.add('B5', fi.site(d if isinstance(d, ast.AST) else c), 'the SAME slice selects the reference chunk (directly or through ref_indices) and the output columns', okc and oki,
-            expected=f'{rp}[{sl} if {rip} is None else {rip}[{sl}]]', found=(u(cv), u(iv)), stmt='chunk selection')
-    # slices: [slice(0, nrefs)] or list(chunk_slices(nrefs, chunksize))
-    sdefs = [s for s in stmts_in(fi.node.body) if isinstance(s, ast.Assign) and u(s.targets[0]) == u(chunk_loop.iter)]
-    vals = {u(s.value) for s in sdefs}
-    nrefs = next((u(s.targets[0]) for s in fi.node.body if isinstance(s, ast.Assign) and isinstance(s.value, ast.IfExp) and u(s.value.body) == f'len({rp})'), None)
-    oks = vals == {f'[slice(0, {nrefs})]', f'list(chunk_slices({nrefs}, chunksize))'}
-    rep.add('B5', fi.site(sdefs[0] if sdefs else chunk_loop), 'column chunks are one full slice or the chunk_slices tiling of [0, nrefs)', oks, expected=f'[slice(0, {nrefs})] | list(chunk_slices({nrefs}, chunksize))', found=sorted(vals), stmt='chunk list')
-    nd = next((s.value for s in fi.node.body if isinstance(s, ast.Assign) and u(s.targets[0]) == nrefs), None)
-    okn = isinstance(nd, ast.IfExp) and atoms(nd.test) == {('is', 'None', rip)} and u(nd.body) == f'len({rp})' and u(nd.orelse) == f'len({rip})'
-    rep.add('B5', fi.site(nd), 'number of columns = number of selected references', okn, expected=f'len({rp}) if {rip} is None else len({rip})', found=u(nd), stmt='column count')
+    # chunk loop: the loop variable is one of the column slices
+    chunk_iter = chunk_loop.iter
+    if isinstance(chunk_loop.target, ast.Name):
+        sl = chunk_loop.target.id
+    else:
+        gi = generator_items(m, fi, V, chunk_loop)
+        if gi is None:
+            raise Undecided(f'jaccarddist_matrix: the chunk loop unpacks `{u(chunk_loop.target)}` from `{u(chunk_loop.iter)[:70]}`, which is not a generator of the package; the relation between '
+                            'the loaded chunk and the column slice cannot be established')
+        sl, chunk_iter = gi
+    S = _tag(sl, chunk_loop)
+
+    def aff(e):
+        return Aff.try_of(e)
+
+    def is_S(e):
+        return term(e, sl, chunk_loop)
+    a0, a1, o = get_arg(c, 0, 'query'), get_arg(c, 1, 'refs'), get_arg(c, 2, 'out')
+    rep.require(all(isinstance(x, ast.AST) for x in (a0, a1, o)), 'jaccarddist_matrix: jaccarddist_array call without query / refs / out')
+    okr = all(_is_element(e, kind, i, qv, qp, q_loop) for _, e in _single(V, a0, st, 'matrix query operand'))
+    ocs = _single(V, o, st, 'matrix output block')
+    for _, e in ocs:
+        ax = view_axes(e, 'out', aff, [S])
+        okr = okr and ax is not None and set(ax) == {0, 1} and ax[0] == ('int', sym(i)) and ax[1] == ('slicevar', sl) and all(term(n, i, q_loop) for n in ast.walk(e) if isinstance(n, ast.Name) and n.id == i)
+    rep.add('B5', fi.site(c), 'row i, columns of this chunk receive the distances of query i to the chunk', okr, expected=f'jaccarddist_array({qv}, chunk, out=out[{i}, {sl}])', found=(u(c), V.show(ocs)), stmt='matrix cell block')
+    ccs = _single(V, a1, st, 'matrix chunk operand')
+    okc = all(_selected(e, cond, rp, rip, is_S, 'jaccarddist_matrix chunk selection') for cond, e in ccs)
+    cdef = reaching_def(fi.node, a1.id, q_loop) if isinstance(a1, ast.Name) else None
+    rep.add('B5', fi.site(cdef if isinstance(cdef, ast.AST) else c), 'the SAME slice selects the reference chunk (directly or through ref_indices) and the output columns', okc,
+            expected=f'{rp}[{sl} if {rip} is None else {rip}[{sl}]]', found=V.show(ccs), stmt='chunk selection')
+    # the slices iterated over: [slice(0, ncols)] or the chunk_slices tiling of [0, ncols)
+    ics = _single(V, chunk_iter, chunk_loop, 'chunk list')
+    oks, okn, ncols_seen = True, True, []
+    for cond, e in ics:
+        if isinstance(e, ast.Call) and isinstance(e.func, ast.Name) and e.func.id in ('list', 'tuple') and len(e.args) == 1 and not e.keywords:
+            e = e.args[0]
+        if isinstance(e, (ast.List, ast.Tuple)) and len(e.elts) == 1 and isinstance(e.elts[0], ast.Call) and isinstance(e.elts[0].func, ast.Name) and e.elts[0].func.id == 'slice':
+            sa = e.elts[0].args
+            oks = oks and len(sa) == 2 and is_const(sa[0], 0)
+            nexp = sa[1] if len(sa) == 2 else None
+        elif isinstance(e, ast.Call) and m.resolve_call(fi, e) == 'gambit.util.misc.chunk_slices':
+            nexp, sz = get_arg(e, 0, 'n'), get_arg(e, 1, 'size')
+            oks = oks and isinstance(sz, ast.AST) and term(sz, csp, PARAM)
+        else:
+            raise Undecided(f'jaccarddist_matrix: the chunk loop iterates over `{u(e)[:70]}`, which is neither a one-slice list nor chunk_slices(...)')
+        ncols_seen.append(u(nexp))
+        okn = okn and isinstance(nexp, ast.AST) and _count(nexp, cond, rp, rip, 'jaccarddist_matrix column count')
+    sdef = reaching_def(fi.node, chunk_iter.id, chunk_loop) if isinstance(chunk_iter, ast.Name) else None
+    rep.add('B5', fi.site(sdef if isinstance(sdef, ast.AST) else chunk_loop), 'column chunks are one full slice or the chunk_slices tiling of [0, nrefs)', oks, expected=f'[slice(0, nrefs)] | list(chunk_slices(nrefs, {csp}))', found=V.show(ics), stmt='chunk list')
+    rep.add('B5', fi.site(sdef if isinstance(sdef, ast.AST) else chunk_loop), 'number of columns = number of selected references', okn, expected=f'len({rp}) if {rip} is None else len({rip})', found=ncols_seen, stmt='column count')
     alloc = [s for s in stmts_in(fi.node.body) if isinstance(s, ast.Assign) and u(s.targets[0]) == 'out']
-    nq = next((u(s.targets[0]) for s in fi.node.body if isinstance(s, ast.Assign) and u(s.value) == f'len({qp})'), None)
-    rep.add('B5', fi.site(alloc[0] if alloc else None), 'the matrix has one row per query and one column per selected reference', len(alloc) == 1 and u(get_arg(alloc[0].value, 0, 'shape')) == f'({nq}, {nrefs})', expected=f'({nq}, {nrefs})',
-            found=[u(a.value) for a in alloc], stmt='matrix shape')
+    oksh = len(alloc) == 1 and isinstance(alloc[0].value, ast.Call)
+    shp = []
+    if oksh:
+        sh = get_arg(alloc[0].value, 0, 'shape')
+        shp = _single(V, sh, alloc[0], 'matrix shape') if isinstance(sh, ast.AST) else []
+        oksh = bool(shp)
+        for cond, e in shp:
+            oksh = oksh and isinstance(e, ast.Tuple) and len(e.elts) == 2 and u(e.elts[0]) == f'len({qp})' and term(e.elts[0].args[0], qp, PARAM) and _count(e.elts[1], cond, rp, rip, 'jaccarddist_matrix shape')
+    rep.add('B5', fi.site(alloc[0] if alloc else None), 'the matrix has one row per query and one column per selected reference', oksh, expected=f'(len({qp}), number of selected references)',
+            found=V.show(shp) if shp else [u(a.value) for a in alloc], stmt='matrix shape')
     wrap = [s for s in fi.node.body if isinstance(s, ast.If) and any(isinstance(x, ast.Assign) and u(x.targets[0]) == rp for x in s.body)]
     okw = len(wrap) == 1 and u(wrap[0].body[0].value) == f'SignatureList({rp})' and ('false', f'isinstance({rp}, AbstractSignatureArray)') in path_atoms(gm[wrap[0].body[0]])
     rep.add('B5', fi.site(wrap[0] if wrap else None), 'a plain list of references is wrapped order-preservingly to support index selections', okw, expected=f'{rp} = SignatureList({rp})', found=[u(w)[:70] for w in wrap], stmt='list wrap')
@@ -302,67 +982,208 @@ def check_matrix(ctx):
             and nxt == sym('start').add(sym('size'))
     rep.add('B5', fc.site(lp), 'chunk_slices tiles [0, n): starts at 0, yields [start, start+size), continues at the previous stop while start < n (no gap, no overlap)', okt,
             expected='start = 0; while start < n: yield slice(start, start + size); start = start + size', found=[u(s) for s in lp.body], stmt='tiling')
+    every_iteration(V, st, chunk_loop, 'the jaccarddist_array call')
+    sequence_stable(V, rp)
+    rep.require(not assigns_to(fi.node, qp), f'jaccarddist_matrix: sequence parameter `{qp}` is rebound')
+
+
+
+# condensed layout: closed forms are decided by evaluation.  An expression built from i, n, integer constants, + - *,
+# floor division by a positive constant and num_pairs(.) is a quasi-polynomial in (i, n): a polynomial of total degree <= D on
+# every residue class modulo P (P = product of the divisors).  Two such functions that agree on a lattice triangle with more than
+# D points per side in every residue class are identical, so agreement on 0 <= i <= n - 2, n <= P * (D + 3) + 4 is a proof.
+
+class _NotInt(Exception):
+    pass
+
+
+def _qp_shape(e, is_i, is_n, is_np):
+    """(degree bound, period bound) of an integer expression over i and n; _NotInt outside the grammar."""
+    if isinstance(e, ast.Constant) and type(e.value) is int:
+        return 0, 1
+    if is_i(e) or is_n(e):
+        return 1, 1
+    if isinstance(e, ast.UnaryOp) and isinstance(e.op, (ast.USub, ast.UAdd)):
+        return _qp_shape(e.operand, is_i, is_n, is_np)
+    if isinstance(e, ast.BinOp) and isinstance(e.op, (ast.Add, ast.Sub, ast.Mult)):
+        (d1, p1), (d2, p2) = _qp_shape(e.left, is_i, is_n, is_np), _qp_shape(e.right, is_i, is_n, is_np)
+        return (d1 + d2 if isinstance(e.op, ast.Mult) else max(d1, d2)), p1 * p2
+    if isinstance(e, ast.BinOp) and isinstance(e.op, ast.FloorDiv) and isinstance(e.right, ast.Constant) and type(e.right.value) is int and e.right.value > 0:
+        d, p = _qp_shape(e.left, is_i, is_n, is_np)
+        return d, p * e.right.value
+    if is_np(e):
+        d, p = _qp_shape(e.args[0], is_i, is_n, is_np)
+        return 2 * d, 2 * p
+    raise _NotInt(u(e))
+
+
+def _qp_eval(e, i, n, is_i, is_n, is_np):
+    if isinstance(e, ast.Constant):
+        return e.value
+    if is_i(e):
+        return i
+    if is_n(e):
+        return n
+    if isinstance(e, ast.UnaryOp):
+        v = _qp_eval(e.operand, i, n, is_i, is_n, is_np)
+        return -v if isinstance(e.op, ast.USub) else v
+    if isinstance(e, ast.BinOp):
+        a, b = _qp_eval(e.left, i, n, is_i, is_n, is_np), _qp_eval(e.right, i, n, is_i, is_n, is_np)
+        return a + b if isinstance(e.op, ast.Add) else a - b if isinstance(e.op, ast.Sub) else a * b if isinstance(e.op, ast.Mult) else a // b
+    x = _qp_eval(e.args[0], i, n, is_i, is_n, is_np)
+    return x * (x - 1) // 2
+
+
+def condensed_block_ok(lo, hi, is_i, is_n, is_np):
+    """[lo, hi) == [sum_{k<i}(n-1-k), ... + n-i-1) for all 0 <= i <= n-2 (scipy squareform layout); None if not evaluable."""
+    try:
+        (d1, p1), (d2, p2) = _qp_shape(lo, is_i, is_n, is_np), _qp_shape(hi, is_i, is_n, is_np)
+    except _NotInt:
+        return None
+    D, P = max(d1, d2, 2), p1 * p2
+    if D > 8 or P > 64:
+        return None
+    for n in range(0, P * (D + 3) + 5):
+        off = 0
+        for i in range(0, n - 1):
+            if _qp_eval(lo, i, n, is_i, is_n, is_np) != off or _qp_eval(hi, i, n, is_i, is_n, is_np) != off + n - i - 1:
+                return False
+            off += n - i - 1
+    return True
 
 
 def check_pairwise(ctx):
     rep, m = ctx.rep, ctx.model
     fi = m.func(f'{MET}.jaccarddist_pairwise')
-    gm = guard_map(fi.node)
-    sp, ip = fi.params()[:2]
+    V = Vals(fi)
+    sp, ip, fp = fi.params()[:3]
+    FLAT = (('true', fp), ('false', fp))
     calls = [c for c in calls_in(fi.node) if m.resolve_call(fi, c) == f'{MET}.jaccarddist_array']
     rep.require(len(calls) == 1, 'jaccarddist_pairwise: expected one jaccarddist_array call')
     c = calls[0]
-    st = next(s for s in stmts_in(fi.node.body) if isinstance(s, ast.Expr) and s.value is c)
-    bp = block_path(fi.node, st)
-    loop = next((o for (_, _, o) in reversed(bp) if isinstance(o, ast.For)), None)
-    rep.require(loop is not None and isinstance(loop.target, ast.Name), 'jaccarddist_pairwise: row loop not found')
+    st = V.stmt_of(c)
+    loops = V.loops_around(st)
+    loop = loops[-1] if loops else None
+    rep.require(len(loops) == 1 and isinstance(loop, ast.For) and isinstance(loop.target, ast.Name), 'jaccarddist_pairwise: row loop not found')
+    selector_stable(V, ip, True)
+    selector_stable(V, fp, False)
     i = loop.target.id
-    nname = next((u(s.targets[0]) for s in fi.node.body if isinstance(s, ast.Assign) and isinstance(s.value, ast.IfExp) and u(s.value.body) == f'len({sp})'), None)
-    rep.require(nname is not None, 'jaccarddist_pairwise: n not found')
-    env = {nname: sym('n'), i: sym('i')}
-    rng = Aff.try_of(loop.iter.args[0], env) if isinstance(loop.iter, ast.Call) and u(loop.iter.func) == 'range' and len(loop.iter.args) == 1 else None
-    rep.add('B6', fi.site(loop), 'rows 0 .. n-2 are computed (the last row has no columns to its right)', rng == sym('n').plus(-1), expected='range(n - 1)', found=u(loop.iter), stmt='row range')
-    locs = {}
-    for s in loop.body:
-        if isinstance(s, ast.Assign) and isinstance(s.targets[0], ast.Name):
-            locs[s.targets[0].id] = s.value
-    cols = next((k for k, v in locs.items() if isinstance(v, ast.Call) and u(v.func) == 'slice'), None)
-    rep.require(cols is not None, 'jaccarddist_pairwise: column slice not found')
-    cs = locs[cols]
-    okc = len(cs.args) == 2 and Aff.try_of(cs.args[0], env) == sym('i').plus(1) and Aff.try_of(cs.args[1], env) == sym('n')
-    rep.add('B6', fi.site(cs), 'columns of row i are slice(i + 1, n)', okc, expected='slice(i + 1, n)', found=u(cs), stmt='cols')
-    ncol = next((k for k, v in locs.items() if Aff.try_of(v, env) == sym('n').sub(sym('i')).plus(-1)), None)
-    rep.add('B6', fi.site(loop), 'ncol == n - i - 1 == length of that slice', ncol is not None, expected='n - i - 1', found={k: u(v) for k, v in locs.items() if k not in (cols,)}, stmt='ncol')
 
-    def both(v, direct, via):
-        return isinstance(v, ast.IfExp) and ((atoms(v.test) == {('is', 'None', ip)} and u(v.body) == direct and u(v.orelse) == via)
-                                              or (atoms(v.test) == {('isnot', 'None', ip)} and u(v.orelse) == direct and u(v.body) == via))
-    row = locs.get(u(c.args[0]))
-    col = locs.get(u(c.args[1]))
-    rep.add('B6', fi.site(c), 'row signature is signature i (directly or through the index selection)', both(row, f'{sp}[{i}]', f'{sp}[{ip}[{i}]]'), expected=f'{sp}[{i}] | {sp}[{ip}[{i}]]', found=u(row), stmt='row signature')
-    rep.add('B6', fi.site(c), 'column signatures are selected by the same cols slice (directly or through the index selection)', both(col, f'{sp}[{cols}]', f'{sp}[{ip}[{cols}]]'), expected=f'{sp}[{cols}] | {sp}[{ip}[{cols}]]',
-            found=u(col), stmt='column signatures')
-    o = get_arg(c, 2, 'out')
-    ov = locs.get(u(o))
-    okr = isinstance(ov, ast.IfExp) and u(ov.test) == 'flat' and u(ov.orelse) == f'out[{i}, {cols}]' and isinstance(ov.body, ast.Subscript) and isinstance(ov.body.slice, ast.Slice)
-    nxt = None
-    if okr:
-        lo, hi = ov.body.slice.lower, ov.body.slice.upper
-        nxt = u(lo)
-        okr = isinstance(lo, ast.Name) and Aff.try_of(hi, {nxt: sym('off'), ncol: sym('ncol')}) == sym('off').add(sym('ncol'))
-    rep.add('B6', fi.site(c), 'row block = out[i, cols] (square) or out[next : next + ncol] (condensed)', okr, expected=f'out[{i}, {cols}] | out[next:next + ncol]', found=u(ov), stmt='row block')
-    if nxt:
-        init = [s for s in stmts_in(fi.node.body) if isinstance(s, ast.Assign) and u(s.targets[0]) == nxt]
-        adv = [s for s in stmts_in(loop.body) if isinstance(s, ast.AugAssign) and u(s.target) == nxt]
-        oka = len(init) == 1 and is_const(init[0].value, 0) and ('true', 'flat') in path_atoms(gm[init[0]]) and len(adv) == 1 and isinstance(adv[0].op, ast.Add) and u(adv[0].value) == ncol \
-            and ('true', 'flat') in path_atoms(gm[adv[0]]) and adv[0].lineno > st.lineno
-        rep.add('B6', fi.site(adv[0] if adv else loop), 'condensed offset starts at 0 and advances by ncol after each row (scipy squareform layout)', oka, expected=f'{nxt} = 0; {nxt} += {ncol}', found=[u(s) for s in init + adv], stmt='flat offset')
+    def is_i(e):
+        return term(e, i, loop)
+
+    def is_n_under(cond, what):
+        md = mode(cond, *_sel_atoms(ip), what)
+        want = None if md is None else (sp if md else ip)
+        return lambda e: want is not None and isinstance(e, ast.Call) and isinstance(e.func, ast.Name) and e.func.id == 'len' and len(e.args) == 1 and not e.keywords and term(e.args[0], want, PARAM)
+
+    def is_np(e):
+        return isinstance(e, ast.Call) and m.resolve_call(fi, e) == f'{MET}.num_pairs' and len(e.args) == 1 and not e.keywords
+
+    def aff_under(cond, what):
+        """Affine form over the symbols i and n, n being the number of selected signatures under this condition."""
+        is_n = is_n_under(cond, what)
+
+        def aff(e):
+            return Aff.try_of(_clone(e, lambda x: _tag('__n', 'count') if is_n(x) else _tag('__i', 'row') if is_i(x) else None))
+        return aff
+    I, N = sym('__i'), sym('__n')
+    COLS = ('slice', I.plus(1), N)
+    # row range
+    rcs = _single(V, loop.iter, loop, 'row range')
+    okrng = True
+    for cond, e in rcs:
+        ok1 = isinstance(e, ast.Call) and isinstance(e.func, ast.Name) and e.func.id == 'range' and not e.keywords and len(e.args) in (1, 2) and (len(e.args) == 1 or is_const(e.args[0], 0))
+        okrng = okrng and ok1 and aff_under(cond, 'row range')(e.args[-1]) == N.plus(-1)
+    rep.add('B6', fi.site(loop), 'rows 0 .. n-2 are computed (the last row has no columns to its right)', okrng, expected='range(n - 1), n = number of selected signatures', found=V.show(rcs), stmt='row range')
+    a0, a1, o = get_arg(c, 0, 'query'), get_arg(c, 1, 'refs'), get_arg(c, 2, 'out')
+    rep.require(all(isinstance(x, ast.AST) for x in (a0, a1, o)), 'jaccarddist_pairwise: jaccarddist_array call without query / refs / out')
+
+    def is_cols(cond, what):
+        aff = aff_under(cond, what)
+
+        def f(e):
+            try:
+                return index_elem(e, aff) == COLS
+            except Undecided:
+                return False
+        return f
+    ccs = _single(V, a1, st, 'column signatures')
+    # the column slice as the column operand spells it (for messages) and its correctness
+    okcols = all(isinstance(e, ast.Subscript) and (is_cols(cond, 'cols')(e.slice) or (isinstance(e.slice, ast.Subscript) and is_cols(cond, 'cols')(e.slice.slice))) for cond, e in ccs)
+    rep.add('B6', fi.site(c), 'columns of row i are slice(i + 1, n)', okcols, expected='slice(i + 1, n)', found=V.show(ccs), stmt='cols')
+    rows = _single(V, a0, st, 'row signature')
+    okrow = all(_selected(e, cond, sp, ip, is_i, 'jaccarddist_pairwise row signature') for cond, e in rows)
+    rep.add('B6', fi.site(c), 'row signature is signature i (directly or through the index selection)', okrow, expected=f'{sp}[{i}] | {sp}[{ip}[{i}]]', found=V.show(rows), stmt='row signature')
+    okcol = all(_selected(e, cond, sp, ip, is_cols(cond, 'column signatures'), 'jaccarddist_pairwise column signatures') for cond, e in ccs)
+    rep.add('B6', fi.site(c), 'column signatures are selected by the same cols slice (directly or through the index selection)', okcol, expected=f'{sp}[cols] | {sp}[{ip}[cols]]', found=V.show(ccs), stmt='column signatures')
+    # row block of the output
+    ocs = _single(V, o, st, 'row block')
+    okblk, oklen, counters, closed = True, True, set(), []
+    for cond, e in ocs:
+        fl = mode(cond, *FLAT, 'jaccarddist_pairwise row block')
+        aff = aff_under(cond, 'row block')
+        if fl is None:
+            okblk = False
+            continue
+        if not fl:
+            ax = view_axes(e, 'out', aff)
+            okblk = okblk and ax is not None and ax == {0: ('int', I), 1: COLS}
+            continue
+        # condensed: out[lo:hi] with hi - lo == n - i - 1 and lo the number of pairs of the rows before i
+        if not (isinstance(e, ast.Subscript) and term(e.value, 'out', PARAM) and isinstance(e.slice, ast.Slice) and e.slice.step is None and e.slice.lower is not None and e.slice.upper is not None):
+            okblk = False
+            continue
+        lo, hi = e.slice.lower, e.slice.upper
+        cnt = [n for n in ast.walk(lo) if isinstance(n, ast.Name) and getattr(n, 'bind', None) is AMBIGUOUS]
+        if cnt:
+            # running counter: lo is the counter itself, hi = counter + (n - i - 1); its initialisation / advance are checked below
+            name = lo.id if isinstance(lo, ast.Name) else None
+            a_hi = aff(_clone(hi, lambda x: _tag('__cnt', 'cnt') if term(x, name, AMBIGUOUS) else None)) if name else None
+            okblk = okblk and name is not None
+            oklen = oklen and a_hi is not None and a_hi == sym('__cnt').add(N).sub(I).plus(-1)
+            if name:
+                counters.add(name)
+        else:
+            is_n = is_n_under(cond, 'row block')
+            r = condensed_block_ok(lo, hi, is_i, is_n, is_np)
+            if r is None:
+                raise Undecided(f'jaccarddist_pairwise: condensed row block out[{u(lo)}:{u(hi)}] is neither a running counter nor an integer expression over i, n and num_pairs() that can be evaluated')
+            closed.append(f'out[{u(lo)}:{u(hi)}]')
+            okblk = okblk and r
+            oklen = oklen and r
+    rep.add('B6', fi.site(loop), 'ncol == n - i - 1 == length of that slice', oklen, expected='condensed block of row i has n - i - 1 cells', found=V.show(ocs), stmt='ncol')
+    rep.add('B6', fi.site(c), 'row block = out[i, cols] (square) or out[next : next + ncol] (condensed)', okblk, expected=f'out[{i}, {i} + 1:n] | out[next:next + ncol]', found=V.show(ocs), stmt='row block')
+    for nxt in sorted(counters):
+        init = [s for s in V.stmts if isinstance(s, ast.Assign) and any(u(t) == nxt for t in s.targets)]
+        adv = [s for s in V.stmts if isinstance(s, ast.AugAssign) and u(s.target) == nxt]
+        other = [s for s in assigns_to(fi.node, nxt) if s not in init and s not in adv]
+        oka = len(init) == 1 and not other and is_const(init[0].value, 0) and ('true', fp) in V.path(init[0]) and not V.loops_around(init[0]) and V.before(init[0], loop) and len(adv) == 1 and isinstance(adv[0].op, ast.Add)
+        if oka:
+            acs = V.cases(adv[0].value, adv[0])
+            oka = bool(acs) and all(aff_under(cond, 'flat offset')(e) == N.sub(I).plus(-1) for cond, e in acs) and ('true', fp) in V.path(adv[0]) and V.before(st, adv[0]) and V.loops_around(adv[0]) == [loop]
+        rep.add('B6', fi.site(adv[0] if adv else loop), 'condensed offset starts at 0 and advances by ncol after each row (scipy squareform layout)', oka, expected=f'{nxt} = 0; {nxt} += n - i - 1', found=[u(s) for s in init + adv + other], stmt='flat offset')
+    if closed and not counters:
+        rep.add('B6', fi.site(c), 'condensed offset starts at 0 and advances by ncol after each row (scipy squareform layout)', okblk, expected='offset of row i = sum over k < i of (n - 1 - k)', found=closed, stmt='flat offset')
+    # mirror
     mir = [s for s in stmts_in(loop.body) if isinstance(s, ast.Assign) and isinstance(s.targets[0], ast.Subscript) and _root(s.targets[0]) == 'out']
-    okm = len(mir) == 1 and u(mir[0].targets[0]) == f'out[{cols}, {i}]' and u(mir[0].value) == f'out[{i}, {cols}]' and ('false', 'flat') in path_atoms(gm[mir[0]]) and mir[0].lineno > st.lineno
-    rep.add('B6', fi.site(mir[0] if mir else loop), 'the square matrix is made symmetric by copying the row just written to the transposed column', okm, expected=f'out[{cols}, {i}] = out[{i}, {cols}] (after the row is computed, square only)',
-            found=[u(s) for s in mir], stmt='mirror')
-    fd = [c2 for c2 in calls_in(fi.node) if u(c2.func) == 'np.fill_diagonal']
-    okd = len(fd) == 1 and ('false', 'flat') in path_atoms(gm[next(s for s in stmts_in(fi.node.body) if isinstance(s, ast.Expr) and s.value is fd[0])])
+    okm = len(mir) == 1 and len(mir[0].targets) == 1 and ('false', fp) in V.path(mir[0]) and V.before(st, mir[0]) and V.loops_around(mir[0]) == [loop]
+    mshow = [u(s) for s in mir]
+    if okm:
+        tcs = V.cases(mir[0].targets[0], mir[0])
+        vcs = V.cases(mir[0].value, mir[0])
+        okm = bool(tcs) and bool(vcs)
+        for cond, e in tcs:
+            ax = view_axes(e, 'out', aff_under(cond, 'mirror'))
+            okm = okm and ax == {0: COLS, 1: ('int', I)}
+        for cond, e in vcs:
+            ax = view_axes(e, 'out', aff_under(cond, 'mirror'))
+            okm = okm and ax == {0: ('int', I), 1: COLS}
+        mshow = [f'{a} = {b}' for a in V.show(tcs) for b in V.show(vcs)]
+    rep.add('B6', fi.site(mir[0] if mir else loop), 'the square matrix is made symmetric by copying the row just written to the transposed column', okm, expected=f'out[cols, {i}] = out[{i}, cols] (after the row is computed, square only)',
+            found=mshow, stmt='mirror')
+    fd = [c2 for c2 in calls_in(fi.node) if u(c2.func) in ('np.fill_diagonal', 'numpy.fill_diagonal')]
+    okd = len(fd) == 1 and ('false', fp) in V.path(V.stmt_of(fd[0])) and not V.loops_around(V.stmt_of(fd[0]))
     rep.add('B6', fi.site(fd[0] if fd else None), 'zero diagonal is written in square mode', okd, expected='np.fill_diagonal(out, 0) when not flat', found=[u(x) for x in fd], stmt='diagonal')
     fn = m.func(f'{MET}.num_pairs')
     rep.functions.add(fn.qualname)
@@ -373,10 +1194,24 @@ def check_pairwise(ctx):
         and {str(Aff.try_of(v.left.left)), str(Aff.try_of(v.left.right))} == {n, f'{n} - 1'}
     rep.add('B6', fn.site(), 'condensed length = n(n-1)/2', okn, expected=f'{n} * ({n} - 1) // 2', found=u(v), stmt='num_pairs')
     allocs_p = [s for s in stmts_in(fi.node.body) if isinstance(s, ast.Assign) and u(s.targets[0]) == 'out' and isinstance(s.value, ast.Call) and u(s.value.func) == 'np.empty']
-    shape_name = u(get_arg(allocs_p[0].value, 0, 'shape')) if allocs_p else None
-    shp = [s for s in fi.node.body if isinstance(s, ast.Assign) and u(s.targets[0]) == shape_name]
-    oksh = len(shp) == 1 and isinstance(shp[0].value, ast.IfExp) and u(shp[0].value.test) == 'flat' and u(shp[0].value.orelse) == f'({nname}, {nname})'
-    rep.add('B6', fi.site(shp[0] if shp else None), 'output is n x n (square) or num_pairs(n) long (condensed)', oksh, expected=f'(npairs,) if flat else ({nname}, {nname})', found=[u(s.value) for s in shp], stmt='pairwise shape')
+    shp = []
+    oksh = len(allocs_p) == 1
+    if oksh:
+        sh = get_arg(allocs_p[0].value, 0, 'shape')
+        shp = _single(V, sh, allocs_p[0], 'pairwise shape') if isinstance(sh, ast.AST) else []
+        oksh = bool(shp)
+        for cond, e in shp:
+            fl = mode(cond, *FLAT, 'jaccarddist_pairwise shape')
+            is_n = is_n_under(cond, 'pairwise shape')
+            if fl is None or not isinstance(e, ast.Tuple):
+                oksh = False
+            elif fl:
+                oksh = oksh and len(e.elts) == 1 and is_np(e.elts[0]) and is_n(e.elts[0].args[0])
+            else:
+                oksh = oksh and len(e.elts) == 2 and is_n(e.elts[0]) and is_n(e.elts[1])
+    rep.add('B6', fi.site(allocs_p[0] if allocs_p else None), 'output is n x n (square) or num_pairs(n) long (condensed)', oksh, expected='(num_pairs(n),) if flat else (n, n)', found=V.show(shp), stmt='pairwise shape')
+    every_iteration(V, st, loop, 'the jaccarddist_array call')
+    sequence_stable(V, sp)
 
 
 def check_threads(ctx):
@@ -424,6 +1259,21 @@ from ..variants import V  # noqa: E402
 _P = 'src/gambit/metric.py'
 _X = 'src/gambit/_cython/metric.pyx'
 _U = 'src/gambit/util/misc.py'
+_SLOW = "\t\t\tref = _cast_sigs_array(ref)\n\t\t\tout[i] = _cmetric.jaccarddist(query, ref)"
+_DISPATCH = ("\tif isinstance(refs, SignatureArray):\n\t\tvalues = _cast_sigs_array(refs.values)\n\t\tbounds = refs.bounds.astype(BOUNDS_DTYPE, copy=False)\n\n"
+             "\t\t_cmetric._jaccarddist_parallel(query, values, bounds, out)\n\n\telse:\n\t\tfor i, ref in enumerate(refs):\n" + _SLOW + "\n\n\treturn out\n\n\ndef jaccarddist_matrix(")
+_CHUNK = "\t\t\tidx = ref_slice if ref_indices is None else ref_indices[ref_slice]\n\t\t\tref_chunk = refs[idx]\n"
+_SLICES = "\tif chunksize is None:\n\t\tref_slices = [slice(0, nrefs)]\n\telse:\n\t\tref_slices = list(chunk_slices(nrefs, chunksize))\n"
+_QLOOP = "\t\t\tfor (i, query) in enumerate(queries):\n\t\t\t\tjaccarddist_array(query, ref_chunk, out=out[i, ref_slice])"
+_CHUNKLOOP = "\t\tfor ref_slice in ref_slices:\n" + _CHUNK
+_NUMPAIRS = "def num_pairs(n: int) -> int:"
+_GEN = ("def _load_chunks(sigs, index, slices):\n\tif index is None:\n\t\tfor sl in slices:\n\t\t\tyield sl, sigs[sl]\n\telse:\n\t\tfor sl in slices:\n\t\t\tyield sl, %s\n\n\n")
+_NDEF = "\tif indices is not None:\n\t\tindices = np.asarray(indices)\n\n\tn = len(sigs) if indices is None else len(indices)\n"
+_ROWCOL = ("\t\t\trow_sig = sigs[i] if indices is None else sigs[indices[i]]\n\n\t\t\tcols = slice(i + 1, n)\n\t\t\tncol = n - i - 1\n"
+           "\t\t\tcol_sigs = sigs[cols] if indices is None else sigs[indices[cols]]\n")
+_ROWOUT = "\t\t\trow_out = out[next_out:next_out+ncol] if flat else out[i, cols]\n"
+_NOCOUNTER = [(_P, "\tif flat:\n\t\tnext_out = 0\n\telse:\n\t\tnp.fill_diagonal(out, 0)\n", "\tif not flat:\n\t\tnp.fill_diagonal(out, 0)\n"),
+              (_P, "\t\t\tif flat:\n\t\t\t\tnext_out += ncol\n\t\t\telse:\n", "\t\t\tif not flat:\n")]
 VARIANTS = [
     V('output columns from a fresh slice', 'B', _P, "jaccarddist_array(query, ref_chunk, out=out[i, ref_slice])", "jaccarddist_array(query, ref_chunk, out=out[i, slice(0, len(ref_chunk))])", 'B5'),
     V('prange writes out[i + 1]', 'B', _X, "\t\tout[i] = c_jaccarddist(query, ref_coords[begin:end])", "\t\tout[i + 1] = c_jaccarddist(query, ref_coords[begin:end])", 'B2'),
@@ -445,6 +1295,56 @@ VARIANTS = [
     V('consecutive-run fast path judged by the endpoints only (seeded C05a)', 'B', 'src/gambit/sigs/base.py',
       "\tdef _getitem_int_array(self, indices):\n\t\tout = SignatureArray.uninitialized(",
       "\tdef _getitem_int_array(self, indices):\n\t\tn = len(indices)\n\t\tif n > 1 and int(indices[-1]) - int(indices[0]) == n - 1:\n\t\t\treturn self._getitem_slice(slice(int(indices[0]), int(indices[-1]) + 1))\n\t\tout = SignatureArray.uninitialized(", 'X5'),
+    # ---- idioms accepted by value (refactoring twins): every E form has a broken twin of the same shape
+    V('E: cast inlined into the kernel call', 'E', _P, _SLOW, "\t\t\tout[i] = _cmetric.jaccarddist(query, _cast_sigs_array(ref))"),
+    V('twin: inlined cast applied to the first reference', 'B', _P, _SLOW, "\t\t\tout[i] = _cmetric.jaccarddist(query, _cast_sigs_array(refs[0]))", 'B4'),
+    V('twin: inlined cast, cell of the previous iteration', 'B', _P, _SLOW, "\t\t\tout[i - 1] = _cmetric.jaccarddist(query, _cast_sigs_array(ref))", 'B4'),
+    V('E: kernel value bound to a local before the store', 'E', _P, _SLOW, "\t\t\tref = _cast_sigs_array(ref)\n\t\t\td = _cmetric.jaccarddist(query, ref)\n\t\t\tout[i] = d"),
+    V('twin: local kernel value clipped before the store', 'B', _P, _SLOW, "\t\t\tref = _cast_sigs_array(ref)\n\t\t\td = _cmetric.jaccarddist(query, ref)\n\t\t\td = min(d, 1)\n\t\t\tout[i] = d", 'B1'),
+    V('E: slow path indexes the references by position', 'E', _P, "\t\tfor i, ref in enumerate(refs):\n" + _SLOW, "\t\tfor i in range(len(refs)):\n\t\t\tout[i] = _cmetric.jaccarddist(query, _cast_sigs_array(refs[i]))"),
+    V('twin: positional slow path reads the neighbouring reference', 'B', _P, "\t\tfor i, ref in enumerate(refs):\n" + _SLOW, "\t\tfor i in range(len(refs)):\n\t\t\tout[i] = _cmetric.jaccarddist(query, _cast_sigs_array(refs[i - 1]))", 'B4'),
+    V('E: slow path as guard clause with early return, fast path operands inlined', 'E', _P, _DISPATCH,
+      "\tif not isinstance(refs, SignatureArray):\n\t\tfor i, ref in enumerate(refs):\n\t\t\tout[i] = _cmetric.jaccarddist(query, _cast_sigs_array(ref))\n\t\treturn out\n\n"
+      "\t_cmetric._jaccarddist_parallel(query, _cast_sigs_array(refs.values), refs.bounds.astype(BOUNDS_DTYPE, copy=False), out)\n\treturn out\n\n\ndef jaccarddist_matrix("),
+    V('twin: guard clause without the early return (every container falls into the fast path)', 'B', _P, _DISPATCH,
+      "\tif not isinstance(refs, SignatureArray):\n\t\tfor i, ref in enumerate(refs):\n\t\t\tout[i] = _cmetric.jaccarddist(query, _cast_sigs_array(ref))\n\n"
+      "\t_cmetric._jaccarddist_parallel(query, _cast_sigs_array(refs.values), refs.bounds.astype(BOUNDS_DTYPE, copy=False), out)\n\treturn out\n\n\ndef jaccarddist_matrix(", 'B3'),
+    V('twin: guard clause, fast path operands inlined from another view of the values', 'B', _P, _DISPATCH,
+      "\tif not isinstance(refs, SignatureArray):\n\t\tfor i, ref in enumerate(refs):\n\t\t\tout[i] = _cmetric.jaccarddist(query, _cast_sigs_array(ref))\n\t\treturn out\n\n"
+      "\t_cmetric._jaccarddist_parallel(query, _cast_sigs_array(refs.values[1:]), refs.bounds.astype(BOUNDS_DTYPE, copy=False), out)\n\treturn out\n\n\ndef jaccarddist_matrix(", 'B3'),
+    V('E: chunk selected in an if/else', 'E', _P, _CHUNK, "\t\t\tif ref_indices is None:\n\t\t\t\tref_chunk = refs[ref_slice]\n\t\t\telse:\n\t\t\t\tref_chunk = refs[ref_indices[ref_slice]]\n"),
+    V('twin: if/else chunk selection ignores ref_indices in the else arm', 'B', _P, _CHUNK, "\t\t\tif ref_indices is None:\n\t\t\t\tref_chunk = refs[ref_slice]\n\t\t\telse:\n\t\t\t\tref_chunk = refs[ref_slice]\n", 'B5'),
+    V('twin: if/else chunk selection with the arms exchanged', 'B', _P, _CHUNK, "\t\t\tif ref_indices is not None:\n\t\t\t\tref_chunk = refs[ref_slice]\n\t\t\telse:\n\t\t\t\tref_chunk = refs[ref_indices[ref_slice]]\n", 'B5'),
+    V('E: chunk list as a conditional expression', 'E', _P, _SLICES, "\tref_slices = [slice(0, nrefs)] if chunksize is None else list(chunk_slices(nrefs, chunksize))\n"),
+    V('twin: conditional-expression chunk list spans the query count', 'B', _P, _SLICES, "\tref_slices = [slice(0, nqueries)] if chunksize is None else list(chunk_slices(nrefs, chunksize))\n", 'B5'),
+    V('twin: conditional-expression chunk list starts at 1', 'B', _P, _SLICES, "\tref_slices = [slice(1, nrefs)] if chunksize is None else list(chunk_slices(nrefs, chunksize))\n", 'B5'),
+    V('E: column view taken once per chunk', 'E', _P, _QLOOP, "\t\t\tchunk_out = out[:, ref_slice]\n\t\t\tfor (i, query) in enumerate(queries):\n\t\t\t\tjaccarddist_array(query, ref_chunk, out=chunk_out[i])"),
+    V('twin: hoisted column view, every query written to row 0', 'B', _P, _QLOOP, "\t\t\tchunk_out = out[:, ref_slice]\n\t\t\tfor (i, query) in enumerate(queries):\n\t\t\t\tjaccarddist_array(query, ref_chunk, out=chunk_out[0])", 'B5'),
+    V('twin: hoisted view of all columns', 'B', _P, _QLOOP, "\t\t\tchunk_out = out[:, :]\n\t\t\tfor (i, query) in enumerate(queries):\n\t\t\t\tjaccarddist_array(query, ref_chunk, out=chunk_out[i])", 'B5'),
+    V('E: chunks loaded by a generator yielding (column slice, chunk)', 'E', _P, _CHUNKLOOP, "\t\tfor ref_slice, ref_chunk in _load_chunks(refs, ref_indices, ref_slices):\n", also=[(_P, _NUMPAIRS, _GEN % 'sigs[index[sl]]' + _NUMPAIRS)]),
+    V('twin: generator ignores the index selection on one path', 'B', _P, _CHUNKLOOP, "\t\tfor ref_slice, ref_chunk in _load_chunks(refs, ref_indices, ref_slices):\n", 'B5', also=[(_P, _NUMPAIRS, _GEN % 'sigs[sl]' + _NUMPAIRS)]),
+    V('twin: generator call passes the selection in the wrong position', 'B', _P, _CHUNKLOOP, "\t\tfor ref_slice, ref_chunk in _load_chunks(ref_indices, refs, ref_slices):\n", 'B5', also=[(_P, _NUMPAIRS, _GEN % 'sigs[index[sl]]' + _NUMPAIRS)]),
+    V('E: n computed in the arms of an if/else', 'E', _P, _NDEF, "\tif indices is None:\n\t\tn = len(sigs)\n\telse:\n\t\tindices = np.asarray(indices)\n\t\tn = len(indices)\n"),
+    V('twin: if/else n counts the whole collection on the selection path', 'B', _P, _NDEF, "\tif indices is None:\n\t\tn = len(sigs)\n\telse:\n\t\tindices = np.asarray(indices)\n\t\tn = len(sigs)\n", 'B6'),
+    V('E: row and column signatures chosen in one if/else', 'E', _P, _ROWCOL,
+      "\t\t\tcols = slice(i + 1, n)\n\t\t\tncol = n - i - 1\n\t\t\tif indices is None:\n\t\t\t\trow_sig = sigs[i]\n\t\t\t\tcol_sigs = sigs[cols]\n\t\t\telse:\n\t\t\t\trow_sig = sigs[indices[i]]\n\t\t\t\tcol_sigs = sigs[indices[cols]]\n"),
+    V('twin: if/else row signature not taken through the selection', 'B', _P, _ROWCOL,
+      "\t\t\tcols = slice(i + 1, n)\n\t\t\tncol = n - i - 1\n\t\t\tif indices is None:\n\t\t\t\trow_sig = sigs[i]\n\t\t\t\tcol_sigs = sigs[cols]\n\t\t\telse:\n\t\t\t\trow_sig = sigs[i]\n\t\t\t\tcol_sigs = sigs[indices[cols]]\n", 'B6'),
+    V('twin: if/else column signatures selected by position i', 'B', _P, _ROWCOL,
+      "\t\t\tcols = slice(i + 1, n)\n\t\t\tncol = n - i - 1\n\t\t\tif indices is None:\n\t\t\t\trow_sig = sigs[i]\n\t\t\t\tcol_sigs = sigs[cols]\n\t\t\telse:\n\t\t\t\trow_sig = sigs[indices[i]]\n\t\t\t\tcol_sigs = sigs[indices[i]]\n", 'B6'),
+    V('E: mirror copies the row view that was just filled', 'E', _P, "out[cols, i] = out[i, cols]", "out[cols, i] = row_out"),
+    V('twin: row view copied onto itself (lower triangle never written)', 'B', _P, "out[cols, i] = out[i, cols]", "out[i, cols] = row_out", 'B6'),
+    V('twin: row view mirrored before the row is computed', 'B', _P, "\t\t\tjaccarddist_array(row_sig, col_sigs, out=row_out)\n", "\t\t\tif not flat:\n\t\t\t\tout[cols, i] = row_out\n\t\t\tjaccarddist_array(row_sig, col_sigs, out=row_out)\n", 'B6',
+      also=[(_P, "\t\t\t\tout[cols, i] = out[i, cols]", "\t\t\t\tpass")]),
+    V('E: mirror with literal slices', 'E', _P, "out[cols, i] = out[i, cols]", "out[i + 1:n, i] = out[i, i + 1:n]"),
+    V('twin: literal-slice mirror includes the diagonal', 'B', _P, "out[cols, i] = out[i, cols]", "out[i:n, i] = out[i, i:n]", 'B6'),
+    V('E: condensed offset in closed form (pairs minus pairs of the remaining rows)', 'E', _P, _ROWOUT, "\t\t\tstart = npairs - num_pairs(n - i)\n\t\t\trow_out = out[start:start + ncol] if flat else out[i, cols]\n", also=_NOCOUNTER),
+    V('twin: closed-form offset one row late', 'B', _P, _ROWOUT, "\t\t\tstart = npairs - num_pairs(n - i - 1)\n\t\t\trow_out = out[start:start + ncol] if flat else out[i, cols]\n", 'B6', also=_NOCOUNTER),
+    V('E: condensed offset as i * (2n - i - 1) // 2', 'E', _P, _ROWOUT, "\t\t\tstart = i * (2 * n - i - 1) // 2\n\t\t\trow_out = out[start:start + ncol] if flat else out[i, cols]\n", also=_NOCOUNTER),
+    V('twin: closed-form polynomial with a sign error', 'B', _P, _ROWOUT, "\t\t\tstart = i * (2 * n - i + 1) // 2\n\t\t\trow_out = out[start:start + ncol] if flat else out[i, cols]\n", 'B6', also=_NOCOUNTER),
+    V('E: condensed block bounded by two closed forms, ncol inlined', 'E', _P, _ROWOUT, "\t\t\trow_out = out[npairs - num_pairs(n - i):npairs - num_pairs(n - i - 1)] if flat else out[i, cols]\n", also=_NOCOUNTER),
+    V('twin: closed-form block one cell short', 'B', _P, _ROWOUT, "\t\t\trow_out = out[npairs - num_pairs(n - i):npairs - num_pairs(n - i - 1) - 1] if flat else out[i, cols]\n", 'B6', also=_NOCOUNTER),
+    V('twin: closed-form block used in square mode too', 'B', _P, _ROWOUT, "\t\t\trow_out = out[npairs - num_pairs(n - i):npairs - num_pairs(n - i - 1)]\n", 'B6', also=_NOCOUNTER),
     V('E: ncol = n - (i + 1)', 'E', _P, "ncol = n - i - 1", "ncol = n - (i + 1)"),
     V('E: cols = slice(1 + i, n)', 'E', _P, "cols = slice(i + 1, n)", "cols = slice(1 + i, n)"),
     V('E: begin/end inlined differently named', 'E', _X, "\t\tbegin = ref_bounds[i]\n\t\tend = ref_bounds[i+1]\n\t\tout[i] = c_jaccarddist(query, ref_coords[begin:end])",
